@@ -61,10 +61,10 @@ func Reset() {
 	Current = nil
 }
 
-func Init() error               { InitCalls++; return nil }
-func Terminate()                { TerminateCalls++ }
-func WindowHint(h Hint, v int)  {}
-func SwapInterval(i int)        {}
+func Init() error              { InitCalls++; return nil }
+func Terminate()               { TerminateCalls++ }
+func WindowHint(h Hint, v int) {}
+func SwapInterval(i int)       {}
 func CreateWindow(width, height int, title string, monitor *Monitor, share *Window) (*Window, error) {
 	w := &Window{}
 	Current = w
@@ -84,6 +84,7 @@ func (w *Window) SetKeyCallback(cb KeyCallback) (previous KeyCallback) {
 	w.cb = cb
 	return p
 }
+
 // Fire delivers one key event to the window's key callback, as the real library does from PollEvents.
 func (w *Window) Fire(key Key, action Action) {
 	if w != nil && w.cb != nil {
